@@ -1,10 +1,10 @@
 (* C07 - extended semantics: vacuity clauses, then the strict definition over feasible worlds and finite layers. *)
 From InfOCF Require Import Core Tol Form Model Spec Exec ThmOps ThmTop ThmPExt.
 From InfOCFProps Require Import Ex.
-From InfOCF Require Import PyLib TieCons TieZ TieP TieTop.
+From InfOCF Require Import PyLib TieSolver TieCons TieInf TieZ TieP.
 From InfOCFGen Require Import SrcCond SrcCons SrcInf SrcZ SrcP.
 From Coq Require Import ZArith.
-From InfOCF Require Import PyLib TieZ TieW TieWTop.
+From InfOCF Require Import PyLib TieMax TieLayer TieW TieWTop.
 From InfOCFGen Require Import SrcW.
 From Coq Require Import ZArith.
 
